@@ -342,7 +342,55 @@ def r5_thread_proc(report, repo):
                'test diagnosers run after node execution')
 
 
+def r8_with_context(report, repo):
+  rule = 'C03-R8'
+  PG = 'openhtf/core/phase_group.py'
+  report.rule(rule, 'T-OWN: PhaseGroup.with_context builds its setup/teardown '
+              'sequences once from the initialisers and every group made by '
+              'the returned creator gets a copy of them (the creator never '
+              'reads the caller\'s raw initialisers again)')
+  f = repo.func(PG, 'PhaseGroup.with_context')
+  params = [p for p in lib.param_names(f.node) if p != 'cls']
+  inner = [n for n in f.node.body if isinstance(n, ast.FunctionDef)]
+  report.expect_instances(rule, len(inner), 1, 'creator closures')
+  built = {}
+  for st in f.node.body:
+    if isinstance(st, ast.Assign) and len(st.targets) == 1 and isinstance(
+        st.targets[0], ast.Name):
+      cs = [c for c in ast.walk(st.value) if isinstance(c, ast.Call) and
+            last_attr(c) == 'PhaseSequence' and c.args and
+            isinstance(c.args[0], ast.Name) and c.args[0].id in params]
+      if cs:
+        built[st.targets[0].id] = cs[0].args[0].id
+  for w in inner:
+    raw = sorted({n.id for n in ast.walk(w) if isinstance(n, ast.Name) and
+                  n.id in params})
+    report.check(not raw, rule, f.qualname, 'creator-reads-raw-initialiser', w,
+                 'the creator does not read the raw initialisers',
+                 'the group creator reads %s on every call: a one-shot '
+                 'initialiser is consumed by the first group and later groups '
+                 'get no setup/teardown' % raw)
+    ctor = [c for c in ast.walk(w) if isinstance(c, ast.Call) and
+            core.is_name(c.func, 'cls')]
+    report.expect_instances(rule, len(ctor), 1, 'cls(...) constructions')
+    for c in ctor:
+      kw = {k.arg: k.value for k in c.keywords}
+      for role, want in (('setup', params[0]), ('teardown', params[1])):
+        v = kw.get(role)
+        copies = [x for x in ast.walk(v) if isinstance(x, ast.Call) and
+                  last_attr(x) in ('attr_copy', 'deepcopy', 'copy') and x.args
+                  and isinstance(x.args[0], ast.Name) and
+                  built.get(x.args[0].id) == want] if v is not None else []
+        report.check(bool(copies), rule, f.qualname, 'copy-of-prebuilt:' + role,
+                     c, '%s is a copy of the sequence pre-built from %s' %
+                     (role, want), 'groups made by the creator do not get '
+                     'their own copy of the pre-built %s sequence' % role)
+
+
 def run(report, repo):
+  report.guard(r8_with_context, report, repo)
+  from sa.rules import c12  # pylint: disable=g-import-not-at-top
+  report.guard(c12.r2_kill, report, repo, rule='C03-R7')
   report.guard(group_table, report, repo, 'C03-R1')
   report.guard(r3_teardown_sequence, report, repo)
   from sa.rules import c02  # pylint: disable=g-import-not-at-top
